@@ -1048,6 +1048,8 @@ class C11(Spec):
     def _inp(self, lc, conv, lst, opts, gains, og, mute):
         return {"layout": lc.name, "normalization": conv, "orders": [c[0] for c in lst], "degrees": [c[1] for c in lst],
                 "options": dict(norm_mean_power=bool(opts["nmp"]), maxRE=bool(opts["maxRE"]), maxRE_scale=opts["scale"]),
+                "options_source": "the code's own defaults (fresh HOADecoderDesign(layout)); 'options' is the expected label"
+                if opts == DEFAULT_OPTS else "set by the harness",
                 "gains": list(gains), "object_gain": og, "object_mute": bool(mute)}
 
     # ---------------------------------------------------------------- direct predicate
